@@ -89,6 +89,10 @@ def close(obs, ref, rtol, atol=0.0):
     if obs.shape != ref.shape:
         return False
     fin = np.isfinite(obs) & np.isfinite(ref)
+    if not np.isfinite(atol):
+        # the caller formed its absolute allowance from a reference that is NaN/inf somewhere: use the finite entries
+        fr = np.abs(ref[np.isfinite(ref)]) if ref.shape else np.abs(ref[()])[None][np.isfinite(ref)[None]]
+        atol = 1e-2*rtol*float(fr.max()) if fr.size else 0.0
     ok = np.abs(obs - ref) <= rtol*np.abs(ref) + atol
     same_nonfinite = (~fin) & ((np.isnan(obs) & np.isnan(ref)) | (obs == ref))
     return bool(np.all(np.where(fin, ok, same_nonfinite)))
